@@ -3,6 +3,7 @@ C03 helper lemmas, continued: the mantissa phase of `readFloat` against the piec
 specification's `parseBody`, and the core theorem for `readFloat` after sign and prefix.
 -/
 import Proofs.Lemmas.C03Lang2
+import Proofs.Lemmas.C03Trunc
 
 namespace C03
 open Num Spec.NumText
@@ -234,6 +235,11 @@ theorem rfTail_spec (hex neg : Bool) (t : Bytes) (prev : Bool)
       (rfTail hex neg t).mant < 2 ^ 64 ∧
       ((rfTail hex neg t).trunc = false → ∃ j : Nat, M = (rfTail hex neg t).mant * baseOf hex ^ j ∧
         ((rfTail hex neg t).mant ≠ 0 → valOf 10 (expLitDigits (digS hex) (strip t)) < 10000 →
+          (rfTail hex neg t).exp = E + (((if hex then 4 else 1) * j : Nat) : Int))) ∧
+      ((rfTail hex neg t).trunc = true → ∃ j : Nat,
+        (rfTail hex neg t).mant * baseOf hex ^ j < M ∧ M < ((rfTail hex neg t).mant + 1) * baseOf hex ^ j ∧
+        baseOf hex ^ (maxDOf hex - 1) ≤ (rfTail hex neg t).mant ∧
+        (valOf 10 (expLitDigits (digS hex) (strip t)) < 10000 →
           (rfTail hex neg t).exp = E + (((if hex then 4 else 1) * j : Nat) : Int)))) := by
   rw [rfTail_eq, parseBody_eq2]
   rcases mant_phase hex t with ⟨hm, r'', hr2⟩ | ⟨st, rest, hm, hstrip, hsd, href⟩
@@ -266,9 +272,15 @@ theorem rfTail_spec (hex neg : Bool) (t : Bytes) (prev : Bool)
         refine ⟨fun h => (by cases h), fun M E h => ?_⟩
         simp only [Option.map_some, Option.some.injEq, Prod.mk.injEq] at h
         obtain ⟨hM, hE⟩ := h
-        refine ⟨rfl, rfl, rfl, v1, fun htr => ⟨st.nd - st.ndMant, ?_, fun hm0 hlit => ?_⟩⟩
-        · rw [← hM]; exact v2 htr
-        · have hyx' := hyx hlit
+        have invT := mantLoop_invT hex t {} 0 0 (inv_init hex) (invT_init hex) st rest hm
+        have hexp : ∀ (hm0 : st.mant ≠ 0), valOf 10 (expLitDigits (digS hex) (strip t)) < 10000 →
+            (if (st.mant != 0) = true then
+              (if hex = true then (if (!st.sawdot) = true then (st.nd : Int) else st.dp) * 4
+                else if (!st.sawdot) = true then (st.nd : Int) else st.dp) + y
+                - ((if hex = true then st.ndMant * 4 else st.ndMant : Nat) : Int)
+            else 0) = E + (((if hex then 4 else 1) * (st.nd - st.ndMant) : Nat) : Int) := by
+          intro hm0 hlit
+          have hyx' := hyx hlit
           have hne : (st.mant != 0) = true := by simpa using hm0
           simp only [hne, if_true]
           rw [← hE, hyx']
@@ -278,5 +290,20 @@ theorem rfTail_spec (hex neg : Bool) (t : Bytes) (prev : Bool)
             push_cast; omega
           · simp only [if_true] at v3 ⊢
             push_cast; omega
+        refine ⟨rfl, rfl, rfl, v1, fun htr => ⟨st.nd - st.ndMant, ?_, fun hm0 hlit => hexp hm0 hlit⟩, fun htr => ?_⟩
+        · rw [← hM]; exact v2 htr
+        · have ht : st.trunc = true := htr
+          obtain ⟨b1, b2⟩ := invT.t2 ht
+          have hfull := invT.t1 ht
+          have hinv : Inv hex st (refMant hex t 0 0 false).1 (refMant hex t 0 0 false).2 st.sawdot :=
+            mantLoop_inv hex t {} 0 0 (inv_init hex) st rest hm
+          have hndpos : 0 < st.nd := by have := hinv.i2.1; have := maxD_pos hex; omega
+          obtain ⟨c1, _⟩ := invT.t3 hndpos
+          rw [href] at b1 b2
+          have hmpos : st.mant ≠ 0 := by
+            have : 0 < baseOf hex ^ (st.ndMant - 1) := Nat.pow_pos (by have := base_ge hex; omega)
+            omega
+          refine ⟨st.nd - st.ndMant, by rw [← hM]; exact b1, by rw [← hM]; exact b2, by rw [← hfull]; exact c1,
+            fun hlit => hexp hmpos hlit⟩
 
 end C03
